@@ -2,6 +2,8 @@ open Datatypes
 
 val nth_error : 'a1 list -> nat -> 'a1 option
 
+val rev : 'a1 list -> 'a1 list
+
 val concat : 'a1 list list -> 'a1 list
 
 val map : ('a1 -> 'a2) -> 'a1 list -> 'a2 list
